@@ -551,6 +551,9 @@ func (i *Install) failRelease(rel *release.Release, err error) (*release.Release
 		uninstall.DisableHooks = i.DisableHooks
 		uninstall.KeepHistory = false
 		uninstall.Timeout = i.Timeout
+		// Without a wait strategy the uninstall fails at once with "unknown wait strategy"
+		// and leaves the failed release and its resources behind.
+		uninstall.WaitStrategy = i.WaitStrategy
 		if _, uninstallErr := uninstall.Run(i.ReleaseName); uninstallErr != nil {
 			return rel, errors.Wrapf(uninstallErr, "an error occurred while uninstalling the release. original install error: %s", err)
 		}
